@@ -5,7 +5,6 @@ package main
 
 import (
 	"fmt"
-	"go/ast"
 	"go/token"
 	"go/types"
 	"os"
@@ -268,22 +267,10 @@ func (w *World) importedPkg(from, path string) *types.Package {
 	return nil
 }
 
-// syntaxOf returns the ast.FuncDecl / FuncLit node of fn.
-func syntaxOf(fn *ssa.Function) ast.Node { return fn.Syntax() }
-
 // enclosingFuncName returns the outermost parent's name.
 func outermost(fn *ssa.Function) *ssa.Function {
 	for fn.Parent() != nil {
 		fn = fn.Parent()
 	}
 	return fn
-}
-
-// lexicalDepth of a closure.
-func lexicalAncestors(fn *ssa.Function) []*ssa.Function {
-	var out []*ssa.Function
-	for p := fn.Parent(); p != nil; p = p.Parent() {
-		out = append(out, p)
-	}
-	return out
 }
